@@ -111,6 +111,7 @@ func pathItemOps(p spec.PathItem) []*spec.Operation {
 	rv = appendOp(rv, p.Delete)
 	rv = appendOp(rv, p.Head)
 	rv = appendOp(rv, p.Patch)
+	rv = appendOp(rv, p.Options)
 
 	return rv
 }
@@ -198,6 +199,11 @@ func mergePaths(primary *spec.Swagger, m *spec.Swagger, opIDs map[string]bool, m
 			// all the proivded specs are already unique.
 			piops := pathItemOps(v)
 			for _, piop := range piops {
+				if piop.ID == "" {
+					// operations without an id are left alone
+					continue
+				}
+
 				if opIDs[piop.ID] {
 					piop.ID = fmt.Sprintf("%v%v%v", piop.ID, "Mixin", mixIndex)
 				}
